@@ -52,6 +52,26 @@ theorem txOverlap_meaning_req (now u : Nat) (l : Ledger) (ret : Option Bool) (h 
     (Viol.txOverlap ∈ (opStep now l (.swBegin u) ret).2 ↔ ret = some true ∧ held l now = true) := by
   constructor <;> simp only [opStep, h, ↓reduceIte] <;> split <;> simp_all <;> split <;> simp_all
 
+/-- `refusedNoHolder` on an acknowledgement: a login answered AlreadyOnline / SystemBusy although the centre has
+nothing on the account (no load, no lingering record) -/
+theorem refusedNoHolder_meaning_ack (now : Nat) (l : Ledger) (id n : Nat) (c : Code) :
+    Viol.refusedNoHolder ∈ (ackStep now l id n c).2 ↔ (c = .already ∨ c = .busy) ∧ l.entry = .none := by
+  cases c <;> simp [ackStep] <;> (repeat' split) <;> simp_all
+
+/-- `refusedNoHolder` on a request: a logout request on an existing record refused although nothing holds the account -/
+theorem refusedNoHolder_meaning_req (now u : Nat) (l : Ledger) (ret : Option Bool) (h : l.entry ≠ .none) :
+    Viol.refusedNoHolder ∈ (opStep now l (.logoutReq u) ret).2 ↔ ret ≠ some true ∧ held l now = false := by
+  simp only [opStep, h, ↓reduceIte]
+  split <;> simp_all <;> split <;> simp_all
+
+/-- … or a line-switch request refused for a logged-in account that is not in a line switch and that nothing holds -/
+theorem refusedNoHolder_meaning_switch (now u : Nat) (l : Ledger) (ret : Option Bool) :
+    Viol.refusedNoHolder ∈ (opStep now l (.swBegin u) ret).2 ↔
+      ret ≠ some true ∧ l.entry = .open .inGame ∧ held l now = false ∧ inSwitchTx l.tx = false := by
+  simp only [opStep]
+  repeat' split
+  all_goals simp_all
+
 /-! ### the clauses of the property -/
 
 /-- **No double load**: in no history is a fresh character load authorised while an earlier
@@ -208,6 +228,235 @@ theorem expired_logout_is_released (ops : List Op) (u t1 f n : Nat) (k : Bool)
     refine ⟨(s.accts u).nextId + 1, ?_⟩
     simp [step, tickAcct, hpl, e1, e2, loginOp, reqLogin, setAcct]
 
+/-! ### the other side of "answered at most once": no login request disappears silently, except by the
+30 s expiry of a parked login (review finding 4) -/
+
+/-- **Every login request is accounted for**: after any history, each of the login requests issued so far
+for an account has been acknowledged, or is the parked (kick-wait) one, or was parked and forgotten by the
+expiry scan of the kick-wait manager — nothing else loses a request. -/
+theorem login_answered_parked_or_expired (ops : List Op) (u x : Nat)
+    (h1 : 1 ≤ x) (h2 : x ≤ ((run ops).1.accts u).nextId) :
+    x ∈ ackIds u (run ops).2 ∨ (∃ t, ((run ops).1.accts u).task = some t ∧ t.id = x) ∨
+      x ∈ ((run ops).1.accts u).dropped := by
+  have h := ((history_accepted ops).2.2 u).i.all x h1 h2
+  have := monRun_answered u (run ops).2 {}
+  simp only [ledgerAfter] at h
+  rw [this] at h
+  simpa using h
+
+/-- … the request ids are exactly `1 … number of login operations of the account` -/
+theorem login_ids_issued (ops : List Op) (u : Nat) :
+    ((run ops).1.accts u).nextId = (ops.filter fun o => match o with | .login v .. => v == u | _ => false).length := by
+  have key : ∀ (ops : List Op) (s : State), ((runFrom s ops).1.accts u).nextId =
+      (s.accts u).nextId + (ops.filter fun o => match o with | .login v .. => v == u | _ => false).length := by
+    intro ops
+    induction ops with
+    | nil => intro s; simp [runFrom]
+    | cons op ops ih =>
+      intro s
+      simp only [runFrom]
+      rw [ih, step_nextId]
+      cases op <;> simp [List.filter_cons, stepIssues] <;> split <;> simp_all <;> omega
+  simpa [run] using key ops {}
+
+/-- … and the scan forgets a parked login only when it has been parked for more than 30 s -/
+theorem forgotten_only_when_expired (now : Nat) (a : Acct) :
+    (dropExpired now a).dropped = a.dropped ∨
+      ∃ t, a.task = some t ∧ now > t.start + TaskExpiry ∧ (dropExpired now a).dropped = t.id :: a.dropped := by
+  unfold dropExpired
+  split
+  · rename_i t ht
+    by_cases he : t.expired now = true
+    · right; exact ⟨t, ht, by simpa [Task.expired] using he, by simp [he]⟩
+    · left; simp [he]
+  · left; rfl
+
+/-- a parked login is answered when it is run (`KickWaitTask.Do`): the only unanswered end is the scan -/
+theorem parked_login_answered_when_run (now : Nat) (a : Acct) (t : Task) (h : a.task = some t) :
+    (∃ n c, Ev.ack t.id n c ∈ (runTask now a).2) ∧ (runTask now a).1.task = none := by
+  constructor
+  · unfold runTask
+    simp only [h]
+    unfold reqLogin doReconnect addTask
+    simp only [h]
+    repeat' split
+    all_goals simp
+  · unfold runTask
+    simp [h]
+
+/-! ### what a passed time limit releases, and what it does not (review finding 2) -/
+
+/-- after any history, a logged-in account that no transaction holds any more accepts a line switch … -/
+theorem timeouts_release_switch (ops : List Op) (u : Nat) (p : Player)
+    (hp : ((run ops).1.accts u).player = some p) (hst : p.state = .logined)
+    (h : held ((ledgerAfter ops).led u) (ledgerAfter ops).now = false) :
+    (step (run ops).1 (.swBegin u)).2.ret = some true := by
+  obtain ⟨_, hnow, hrel⟩ := history_accepted ops
+  have hr := (hrel u).p
+  generalize (run ops).1 = s at *
+  generalize ledgerAfter ops = m at *
+  rw [← hnow] at h
+  unfold RelP at hr
+  rw [hp] at hr
+  obtain ⟨he, hc, ht⟩ := hr
+  have hl : p.lock.tryLock s.now .switchLine LockTimeout = some ⟨true, .switchLine, s.now + LockTimeout⟩ := by
+    rw [tryLock_some, ← ht]; exact ⟨h, rfl⟩
+  simp [step, swBeginOp, hp, hst, hl]
+
+/-- … and, when its connection was reported closed, a reconnect -/
+theorem timeouts_release_reconnect (ops : List Op) (u f n : Nat) (k : Bool) (p : Player)
+    (hp : ((run ops).1.accts u).player = some p) (hst : p.state = .logined) (hn : p.net = 0)
+    (h : held ((ledgerAfter ops).led u) (ledgerAfter ops).now = false) :
+    ∃ id, (step (run ops).1 (.login u f n k)).2.evs = [.ack id n (.re p.logic)] := by
+  obtain ⟨_, hnow, hrel⟩ := history_accepted ops
+  have hr := (hrel u).p
+  generalize (run ops).1 = s at *
+  generalize ledgerAfter ops = m at *
+  rw [← hnow] at h
+  unfold RelP at hr
+  rw [hp] at hr
+  obtain ⟨he, hc, ht⟩ := hr
+  have hl : p.lock.tryLock s.now .reonline LockTimeout = some ⟨true, .reonline, s.now + LockTimeout⟩ := by
+    rw [tryLock_some, ← ht]; exact ⟨h, rfl⟩
+  exact ⟨(s.accts u).nextId + 1, by simp [step, loginOp, reqLogin, hp, hst, hn, doReconnect, hl]⟩
+
+/-- **A line switch that never ends blocks the account for good** (suspected defect of the code, mirrored
+by the model: `SetState(SwitchLine, 0)` carries no state time limit).  Once the account is in a line switch,
+whatever happens afterwards — any clock advances (past the 3 min transaction limit, past anything), ticks,
+logins, closed reports, re-online, offline replies, operations on other accounts — short of a switch-end, a
+logout request / report or a logined report for that account: a line-switch request is refused and every
+login request is answered AlreadyOnline.  So for login and line-switch "refused until … its time limit
+passes" holds only in the direction proved by `refused_while_held`; the time limit frees the account for a
+logout request only (`timeouts_release`). -/
+theorem unfinished_switch_blocks_account (pre post : List Op) (u : Nat)
+    (h : InSwitch ((run pre).1.accts u)) (hpost : ∀ op ∈ post, op.endsSwitch u = false) :
+    (step (run (pre ++ post)).1 (.swBegin u)).2.ret = some false ∧
+    ∀ f n k, (∃ id, Ev.ack id n .already ∈ (step (run (pre ++ post)).1 (.login u f n k)).2.evs) ∧
+      ∀ id' n' c, Ev.ack id' n' c ∈ (step (run (pre ++ post)).1 (.login u f n k)).2.evs → c = .already := by
+  have hs : InSwitch ((run (pre ++ post)).1.accts u) := by
+    unfold run; rw [runFrom_append]; exact runFrom_inSwitch post u hpost _ h
+  generalize (run (pre ++ post)).1 = s at hs
+  refine ⟨?_, ?_⟩
+  · simp [step, (swBeginOp_inSwitch s.now _ hs).2]
+  · intro f n k
+    have hs' : InSwitch { s.accts u with nextId := (s.accts u).nextId + 1 } := inSwitch_congr rfl hs
+    refine ⟨⟨(s.accts u).nextId + 1, ?_⟩, ?_⟩
+    · simp only [step, loginOp]; exact reqLogin_inSwitch_acks _ _ _ _ _ _ hs'
+    · intro id' n' c hm
+      simp only [step, loginOp] at hm
+      rcases (reqLogin_inSwitch _ _ _ _ _ k hs').2 _ hm with e | ⟨f', n'', e⟩
+      · cases e; rfl
+      · cases e
+
+/-- the state the theorem starts from is reached by the ordinary protocol (login, logged-in, switch begins);
+e.g. `post := [.adv 180000, .tick, .adv 1800000, .tick]` is allowed -/
+example : InSwitch ((run [.login 1 1 1 true, .logined 1 true none, .swBegin 1]).1.accts 1) := ⟨_, rfl, rfl⟩
+example : ∀ op ∈ [Op.adv 180000, .tick, .closed 1 none, .adv 1800000, .tick, .login 1 2 2 true],
+    op.endsSwitch 1 = false := by decide
+
+/-! ### what the theorems do NOT say: two environment assumptions made explicit by witnesses
+(review findings 1 and 3) -/
+
+/-- a logined report for an account the centre keeps no record of is ignored (and still answered Succ by the
+handler): nothing is recorded, nothing is emitted -/
+theorem logined_without_record_ignored (s : State) (u : Nat) (lg : Bool) (pick : Option Nat)
+    (h : (s.accts u).player = none) :
+    ((step s (.logined u lg pick)).1.accts u).player = none ∧ (step s (.logined u lg pick)).2.evs = [] := by
+  simp [step, loginedOp, h, fire, setAcct]
+
+/-- **Late logined** (review finding 1): the load authorised at 0 expires at the centre (tick at 2 min), the
+logic server's logined report arrives afterwards and is ignored, and a second fresh load is authorised —
+accepted by the monitor, because the property counts an *expired* load as over.  That "two game-logic
+instances never coexist" follows only under the environment assumption that a logic instance whose login
+was not confirmed within 2 min (whose logout did not complete within 30 min) has discarded itself; the
+centre does nothing to enforce it (`assumptions` of the check). -/
+theorem late_logined_then_second_load :
+    (run [.login 1 1 1 true, .adv 120000, .tick, .logined 1 true none, .login 1 2 2 true]).2.map (·.out.evs) =
+      [[.ack 1 1 .ok], [], [], [], [.ack 2 2 .ok]] ∧
+    check (run [.login 1 1 1 true, .adv 120000, .tick, .logined 1 true none, .login 1 2 2 true]).2 = [] := by
+  decide
+
+/-- **Stale closed report** (review finding 3): `OnClientSessionClosed(uid)` carries no connection identity.
+After a reconnect over connection (2,2), a second closed report for the account (e.g. a duplicate for the
+old connection (1,1)) unbinds (2,2), and a third connection is given a reconnect although (2,2) was never
+closed.  The monitor's clause "previous connection reported closed" is per account: it relies on the
+front-ends reporting only the connection currently bound to the account. -/
+theorem stale_closed_report_unbinds_current_connection :
+    (run [.login 1 1 1 true, .logined 1 true none, .closed 1 none, .offReply 1 none, .login 1 2 2 true,
+          .reonline 1, .closed 1 none, .offReply 1 none, .login 1 1 3 true]).2.map (·.out.evs) =
+      [[.ack 1 1 .ok], [], [.off], [], [.ack 2 2 (.re (some true))], [], [.off], [], [.ack 3 3 (.re (some true))]] := by
+  decide
+
+/-! ### the periodic update is driven by the 1 s timer of `PlayerMgr.Start` (`Op.advT`): no explicit tick needed -/
+
+/-- **Expiry frees the account, by the timer**: with the timer running, once the 2 min of an authorised, never
+confirmed load are over, any further advance of at least one timer period removes the record and the next
+login request gets a fresh authorisation. -/
+theorem timer_releases_expired_login (ops : List Op) (u t0 f n ms : Nat) (k : Bool)
+    (h : ((ledgerAfter ops).led u).entry = .open (.auth t0))
+    (hexp : (ledgerAfter ops).now ≥ t0 + LoginTimeout) (hms : ms ≥ TimerPeriod) :
+    ∃ id, (step (step (run ops).1 (.advT ms)).1 (.login u f n k)).2.evs = [.ack id n .ok] := by
+  obtain ⟨_, hnow, hrel⟩ := history_accepted ops
+  have hp := (hrel u).p
+  generalize (run ops).1 = s at *
+  generalize ledgerAfter ops = m at *
+  rw [← hnow] at hexp
+  unfold RelP at hp
+  cases hpl : (s.accts u).player with
+  | none => rw [hpl] at hp; rw [hp.1] at h; cases h
+  | some p =>
+    rw [hpl] at hp
+    obtain ⟨he, hc, ht⟩ := hp
+    have hst : p.state = .logining := by
+      rw [h] at he; unfold entryOK at he; split at he <;> simp_all
+    have he' := he
+    rw [h] at he'; simp [entryOK, hst] at he'
+    have hgone := advT_removes s u ms p hpl (.inl hst) (by unfold LoginTimeout at *; omega)
+      (by unfold LoginTimeout at *; omega) hms
+    refine ⟨((step s (.advT ms)).1.accts u).nextId + 1, ?_⟩
+    simp [step, loginOp, reqLogin] at hgone ⊢
+    simp [hgone]
+
+/-- … and likewise 30 min after an accepted logout request that never completed -/
+theorem timer_releases_expired_logout (ops : List Op) (u t1 f n ms : Nat) (k : Bool)
+    (h : ((ledgerAfter ops).led u).entry = .open (.out t1))
+    (hexp : (ledgerAfter ops).now ≥ t1 + LogoutTimeout) (hms : ms ≥ TimerPeriod) :
+    ∃ id, (step (step (run ops).1 (.advT ms)).1 (.login u f n k)).2.evs = [.ack id n .ok] := by
+  obtain ⟨_, hnow, hrel⟩ := history_accepted ops
+  have hp := (hrel u).p
+  generalize (run ops).1 = s at *
+  generalize ledgerAfter ops = m at *
+  rw [← hnow] at hexp
+  unfold RelP at hp
+  cases hpl : (s.accts u).player with
+  | none => rw [hpl] at hp; rw [hp.1] at h; cases h
+  | some p =>
+    rw [hpl] at hp
+    obtain ⟨he, hc, ht⟩ := hp
+    have hst : p.state = .logouting := by
+      rw [h] at he; unfold entryOK at he; split at he <;> simp_all
+    have he' := he
+    rw [h] at he'; simp [entryOK, hst] at he'
+    have hgone := advT_removes s u ms p hpl (.inr hst) (by unfold LogoutTimeout at *; omega)
+      (by unfold LogoutTimeout at *; omega) hms
+    refine ⟨((step s (.advT ms)).1.accts u).nextId + 1, ?_⟩
+    simp [step, loginOp, reqLogin] at hgone ⊢
+    simp [hgone]
+
+/-- the timer fires at the multiples of its period that the advance passes, and only there -/
+theorem timer_firings (a b t : Nat) : t ∈ firings a b ↔ a < t ∧ t ≤ b ∧ t % TimerPeriod = 0 := by
+  constructor
+  · intro h
+    refine ⟨(firings_bounds a b t h).1, (firings_bounds a b t h).2, ?_⟩
+    unfold firings TimerPeriod at h
+    simp only [List.mem_map, List.mem_range] at h
+    obtain ⟨i, _, rfl⟩ := h
+    simp [TimerPeriod]
+  · rintro ⟨h1, h2, h3⟩
+    unfold firings TimerPeriod at *
+    simp only [List.mem_map, List.mem_range]
+    exact ⟨t / 1000 - a / 1000 - 1, by omega, by omega⟩
+
 /-! ### non-vacuity: the hypotheses above are met by concrete histories -/
 
 /-- a held transaction exists (login transaction right after a fresh authorisation) -/
@@ -225,8 +474,27 @@ example : ((ledgerAfter [.login 1 1 1 true, .adv 120000]).led 1).entry = .open (
 example : ((ledgerAfter [.login 1 1 1 true, .logined 1 true none, .logoutReq 1, .adv 1800000]).led 1).entry = .open (.out 0) ∧
     (ledgerAfter [.login 1 1 1 true, .logined 1 true none, .logoutReq 1, .adv 1800000]).now ≥ 0 + LogoutTimeout := by decide
 
+/-- the timer at work: the firing at 120 000 ms removes the unconfirmed load; an advance that stops 1 ms short
+of that firing does not -/
+example : (run [.login 1 1 1 true, .adv 119000, .advT 1000, .login 1 2 2 true]).2.map (·.out.evs) =
+      [[.ack 1 1 .ok], [], [], [.ack 2 2 .ok]] ∧
+    (run [.login 1 1 1 true, .adv 119000, .advT 999, .login 1 2 2 true]).2.map (·.out.evs) =
+      [[.ack 1 1 .ok], [], [], [.kick 1 1, .ack 2 2 .already]] := by decide
+
 /-- a live load exists (so `live_load_has_record` is not vacuous) -/
 example : ((ledgerAfter [.login 1 1 1 true]).led 1).entry.live = true := by decide
+
+/-- an issued request exists; a forgotten one exists (parked at 0, scanned after 30 s) -/
+example : ((run [.login 1 1 1 true]).1.accts 1).nextId = 1 := by decide
+example : ((run [.login 1 1 1 true, .logined 1 true none, .login 1 2 2 true, .adv 30001, .closed 1 none,
+    .offReply 1 (some 1)]).1.accts 1).dropped = [2] := by
+  decide
+
+/-- a logged-in, unheld record with a closed connection exists (`timeouts_release_switch` / `_reconnect`) -/
+example : ∃ p, ((run [.login 1 1 1 true, .logined 1 true none, .closed 1 none]).1.accts 1).player = some p ∧
+    p.state = .logined ∧ p.net = 0 ∧
+    held ((ledgerAfter [.login 1 1 1 true, .logined 1 true none, .closed 1 none]).led 1) 0 = false :=
+  ⟨_, rfl, rfl, rfl, by decide⟩
 
 /-- the full happy path with a kick-wait login: fresh login, logged-in, second connection parks, the
 first is reported closed, the logic server answers the offline request, the parked login reconnects —
@@ -246,10 +514,11 @@ theorem mutant_reconnects_wrong_state :
     Rel mutA mutL ∧
     Viol.reconnectWrongState ∈ (evsStep 300000 mutL (reqLoginNoStateCheck 300000 mutA 2 2 2 true).2).2 ∧
     (evsStep 300000 mutL (reqLogin 300000 mutA 2 2 2 true).2).2 = [] := by
-  refine ⟨⟨?_, ⟨?_, ?_, ?_⟩⟩, by decide, by decide⟩
+  refine ⟨⟨?_, ⟨?_, ?_, ?_, ?_⟩⟩, by decide, by decide⟩
   · simp [RelP, mutA, mutL, entryOK, LoginTimeout]
   · intro x hx; simp [mutL] at hx; subst hx; simp [mutA]
   · simp [mutL]
   · intro t ht; simp [mutA] at ht
+  · intro x h1 h2; simp [mutA] at h2; left; simp [mutL]; omega
 
 end Cell2v.Props.C18
